@@ -1,6 +1,8 @@
 package main
 
 import (
+	"time"
+	"sync"
 	"fmt"
 	"math"
 
@@ -105,7 +107,28 @@ func res(err error, val string) string {
 
 // Exec runs the operation on the real client; the result is canonical text
 // (`ok:<val>`, `err:<name>` or `panic`).
-func (o *Op) Exec(mc *modbus.ModbusClient) (out string) {
+func (o *Op) Exec(mc *modbus.ModbusClient) string {
+	// a call that never returns (a mutex kept by an earlier call, …) must not stall a check: after
+	// execWatchdog it is reported as the outcome `hang`, and so is every later call on that client
+	if _, h := hungClients.Load(mc); h {
+		return "hang"
+	}
+	done := make(chan string, 1)
+	go func() { done <- o.exec1(mc) }()
+	select {
+	case s := <-done:
+		return s
+	case <-time.After(execWatchdog):
+		hungClients.Store(mc, true)
+		return "hang"
+	}
+}
+
+const execWatchdog = 45 * time.Second
+
+var hungClients sync.Map // *modbus.ModbusClient → true
+
+func (o *Op) exec1(mc *modbus.ModbusClient) (out string) {
 	defer func() {
 		if r := recover(); r != nil {
 			out = "panic"
